@@ -400,6 +400,28 @@ Definition format_func (fmt : bytes) : option bytes :=
   else if name_is "@base64d" fmt then Some (codes "_tobase64d")
   else None.
 
+(* natives whose result shows the Go representation of a number (json.Number prints its literal
+   text): declined when the input holds such numbers *)
+Definition is_formatter (name : bytes) : bool :=
+  name_is "tojson" name || name_is "tostring" name || name_is "join" name || name_is "format" name
+  || name_is "_tohtml" name || name_is "_touri" name || name_is "_tocsv" name || name_is "_totsv" name
+  || name_is "_tosh" name || name_is "_tobase64" name.
+
+Fixpoint has_number (fuel : nat) (v : jv) : bool :=
+  match fuel with
+  | O => true
+  | S f => match v with
+           | VNum _ => true
+           | VArr l => existsb (has_number f) l
+           | VObj kvs => existsb (fun kv => has_number f (snd kv)) kvs
+           | _ => false
+           end
+  end.
+
+Definition guard_repsens (name : bytes) (v : jv) (m : M unit) : M unit :=
+  fun s => if repsens s && is_formatter name && has_number (S (jv_depth v)) v
+           then (inr (XSkip (codes "number-representation")), s) else m s.
+
 (* iteration budget of the native _range (independent of the evaluation fuel) *)
 Definition range_budget : nat := N.to_nat 20000.
 
@@ -990,6 +1012,7 @@ with call (n : nat) (rho : env) (name : bytes) (args : list query) (v : tv) (ps 
                | None => skipM "undefined-function"
                end)
     end in
+  let native := guard_repsens name (fst v) native in
   if is_var_name name && Nat.eqb arity 0 then
     match lookup_var rho name with
     | Some x => k x ps
